@@ -78,6 +78,46 @@ def padded_strings(case):
     return out
 
 
+def dedupe(case):
+    """the case with exactly repeated padded terms (prefactor, symbol, operator string) removed"""
+    seen, terms = set(), []
+    for t, s in zip(case["terms"], padded_strings(case)):
+        k = (term_frac(t), t[2], s)
+        if k not in seen:
+            seen.add(k)
+            terms.append(t)
+    return dict(case, terms=terms)
+
+
+def multiplicity_lost(sp, case):
+    """True iff the polynomial sp is the Hamiltonian with some exactly repeated terms counted fewer times (but at
+    least once): for every (symbol, operator string) the coefficient is sum_i m'_i * lambda_i over the distinct
+    prefactors lambda_i of that key with 1 <= m'_i <= multiplicity_i, and some m'_i is smaller than the multiplicity."""
+    import itertools
+    pre = preorder(case["children"])
+    groups = defaultdict(Counter)
+    for term, s_ in zip(case["terms"], padded_strings(case)):
+        groups[((term[2],) if term[2] != "1" else (), tuple(s_[i] for i in pre))][term_frac(term)] += 1
+    if any(k not in groups for k in sp):
+        return False
+    lost = False
+    for k, mult in groups.items():
+        have = sp.get(k, Fraction(0))
+        lams = list(mult.items())
+        full = sum(l * m for l, m in lams)
+        if have == full:
+            continue
+        ok = False
+        for ms in itertools.product(*[range(1, m + 1) for _l, m in lams]):
+            if sum(l * m for (l, _), m in zip(lams, ms)) == have:
+                ok = True
+                break
+        if not ok:
+            return False
+        lost = True
+    return lost
+
+
 def case_features(case):
     strings = padded_strings(case)
     triples = [(term_frac(t), t[2], s) for t, s in zip(case["terms"], strings)]
@@ -416,11 +456,48 @@ def random_phys(rng, n, cap):
     return phys
 
 
-def random_terms(rng, phys, nterms, coefmode, dupmode, nlabels, distinct_strings=False, physical_only=False):
+def product_terms(rng, phys, coefmode, nlabels, physical_only, seen, budget):
+    """expansion of  c * prod_{s in S} (w_s0 A_s0 + w_s1 A_s1): terms whose coefficient matrices across every
+    edge have low rank, so that the Gaussian elimination has real row/column operations to do"""
+    n = len(phys)
+    sites_all = [i for i in range(n) if phys[i] > 1] if physical_only else list(range(n))
+    if len(sites_all) < 2:
+        return []
+    k = rng.randrange(2, min(4, len(sites_all)) + 1)
+    sites = rng.sample(sites_all, k)
+    alts = []
+    for s_ in sites:
+        nl = max(1, min(nlabels if nlabels > 1 else 2, phys[s_] * phys[s_] - 1 if physical_only else 3))
+        labs = rng.sample(range(nl), min(nl, rng.choice([1, 2, 2])))
+        alts.append([(f"A{l}_{phys[s_]}", Fraction(rng.choice([1, 1, 2, -1, 3]), rng.choice([1, 1, 2])) if coefmode != "unit" else Fraction(1)) for l in labs])
+    if coefmode in ("unit", "frac"):
+        g = "1"
+    else:
+        g = rng.choice(["1", "g1", "g2"])
+    lead = Fraction(1) if coefmode == "unit" else Fraction(rng.choice([1, 2, -1, 1]), rng.choice([1, 3]))
+    out = []
+    import itertools
+    for combo in itertools.product(*alts):
+        ops = [[s_, lab] for s_, (lab, _w) in zip(sites, combo)]
+        w = lead
+        for _lab, ww in combo:
+            w *= ww
+        full = tuple(dict((a, b) for a, b in ops).get(i, f"I{phys[i]}") for i in range(n))
+        if full in seen or len(out) >= budget:
+            continue
+        seen.add(full)
+        out.append([w.numerator, w.denominator, g, ops])
+    return out
+
+
+def random_terms(rng, phys, nterms, coefmode, dupmode, nlabels, distinct_strings=False, physical_only=False, product=False):
     """terms as [num, den, symbol, [[node, label], ...]]"""
     n = len(phys)
     sites_all = [i for i in range(n) if not (physical_only and phys[i] == 1)]
     terms, seen = [], set()
+    if product:
+        for _ in range(rng.choice([1, 1, 2])):
+            terms += product_terms(rng, phys, coefmode, nlabels, physical_only, seen, max(0, nterms - len(terms)))
 
     def coef():
         if coefmode == "unit":
@@ -483,7 +560,8 @@ class C01(Prop):
     design_ref = "DESIGN.md section 5 / C01"
     rule = ("a (tree, Hamiltonian) group = random rooted tree of 1..7 nodes (random child order, dims in {1,2,3} incl. dimension-1 nodes, "
             "random attach order; all ordered shapes <= 5 nodes in thorough), 1..8 terms with supports of any size, shared labels, explicit "
-            "identities, coefficient mode unit/frac/sym/symshared, duplicate mode none/dup/prop/mixed; every group is run with all four "
+            "identities, coefficient mode unit/frac/sym/symshared, duplicate mode none/dup/prop/mixed, 35% with expanded products of local sums "
+            "(low-rank coefficient matrices: the Gaussian elimination does real row/column operations); every group is run with all four "
             "TTNOFinder methods (one case per method) plus a malformed stream (term on an unknown site). non-trivial = >= 2 nodes and >= 2 terms; "
             "distinct by case content")
     clauses = [
@@ -516,7 +594,7 @@ class C01(Prop):
         rng = ctx.rng(stream)
         groups = []
         cap = ctx.scale(150, 300)
-        ngroups = ctx.scale(44, 420) * budget_scale
+        ngroups = ctx.scale(300, 3000) * budget_scale
         shapes = []
         if ctx.thorough() and stream == "main":
             for n in range(1, 6):
@@ -540,9 +618,10 @@ class C01(Prop):
             dupmode = rng.choice(["none", "none", "none", "dup", "prop", "mixed"])
             nterms = rng.choice([1, 1, 2, 2, 3, 3, 4, 5, 6, 7, 8])
             nlabels = rng.choice([1, 2, 3])
-            terms = random_terms(rng, phys, nterms, coefmode, dupmode, nlabels)
+            product = rng.random() < 0.35
+            terms = random_terms(rng, phys, nterms, coefmode, dupmode, nlabels, product=product)
             groups.append({"children": ch, "phys": phys, "terms": terms, "nlabels": 3, "coefmode": coefmode,
-                           "dupmode": dupmode, "seed": rng.randrange(10 ** 6)})
+                           "dupmode": dupmode, "struct": "product" if product else "random", "seed": rng.randrange(10 ** 6)})
         return groups
 
     def generate(self, ctx, stream, budget_scale=1):
@@ -576,6 +655,7 @@ class C01(Prop):
             c[f"terms:{len(x['terms'])}"] += 1
             c["coef:" + x.get("coefmode", "?")] += 1
             c["dup:" + x.get("dupmode", "?")] += 1
+            c["struct:" + x.get("struct", "random")] += 1
             f = case_features(x) if x["kind"] == "ham" else {}
             c["exact_duplicates"] += bool(f.get("exact_dup"))
             c["same_string_not_dup"] += bool(f.get("same_string") and not f.get("exact_dup"))
@@ -597,7 +677,8 @@ class C01(Prop):
             with spy_state_diagram(captured):
                 ttno = TTNO.from_hamiltonian(ham, ttns, finder(case["method"]))
         except Exception as e:  # noqa
-            ob["exception"] = f"{type(e).__name__}: {e}"
+            site = traceback.extract_tb(e.__traceback__)[-1].name
+            ob["exception"] = f"{type(e).__name__}: {e} [in {site}]"
             ob["tb"] = traceback.format_exc()[-1200:]
             ttno = None
         if "ham" in captured:
@@ -653,8 +734,14 @@ class C01(Prop):
         except Exception as e:  # noqa
             ob["fill_dev"] = f"independent filling failed: {type(e).__name__}: {e}"
         sp = selection_poly(ex, case)
-        ob["py_exact"] = (sp == ham_poly(case))
+        hp = ham_poly(case)
+        ob["py_exact"] = (sp == hp)
         ob["n_selections"] = len(sp)
+        if sp != hp:        # diagnostics used only to attribute a violation to a recorded finding
+            ob["mult_lost"] = multiplicity_lost(sp, case)
+            raw = {tuple(s_[i] for i in pre) for s_ in padded_strings(case)}
+            have = {k[1] for k in sp}
+            ob["support_ok"] = ({k[1] for k in hp} <= have <= raw)
         if dense is not None:
             ob["sel_dev"] = float(np.max(np.abs(eval_poly(sp, case, conv, cm) - dense)))
         return ob
@@ -696,7 +783,7 @@ class C01(Prop):
             if v[2] and v[3]:
                 n += 1
                 ok += 1
-            elif self._class_of(c) in known:
+            elif self._known_instance(c, ob) in known:
                 continue        # refuted instance of a recorded finding: not an obligation
             else:
                 n += 1
@@ -760,7 +847,7 @@ class C01(Prop):
         pre = preorder(case["children"])
         per_node = []
         for v in pre:       # tuples shaped as Coq prints them: (label, lambda, gamma, bond indices)
-            per_node.append((v, [(label_code(lab), Fraction(lam), sym_code(gam), [pos[x] for x in verts])
+            per_node.append((v, [(label_code(lab), (Fraction(lam).numerator, Fraction(lam).denominator), sym_code(gam), [pos[x] for x in verts])
                                  for _h, hv, lab, lam, gam, verts in ex["hes"] if hv == v]))
         return (per_node, [(c, cnt[c]) for c in pre[1:]])
 
@@ -786,7 +873,12 @@ class C01(Prop):
                 return f"[{m}] node {nid(i)} has tensor shape {ob['shapes'][nid(i)]}, physical dimension should be {d}"
         tol = TOL * ob["scale"]
         if isinstance(ob["oracle_dev"], str) or ob["oracle_dev"] > tol:
-            return f"[{m}] TTNO differs from sum_k c_k (x) A_k: {ob['oracle_dev']}"
+            note = ""
+            if ob.get("mult_lost"):
+                note += "; the diagram denotes the Hamiltonian with exactly repeated terms counted fewer times"
+            if ob.get("support_ok"):
+                note += "; operator strings agree, coefficients differ"
+            return f"[{m}] TTNO differs from sum_k c_k (x) A_k: {ob['oracle_dev']}{note}"
         if isinstance(ob["as_matrix_dev"], str) or ob["as_matrix_dev"] > tol:
             return f"[{m}] as_matrix() differs from sum_k c_k (x) A_k: {ob['as_matrix_dev']}"
         return None
@@ -804,16 +896,32 @@ class C01(Prop):
             return KF_DUP
         return None
 
+    def _known_instance(self, case, ob):
+        """the recorded finding an inexact exported diagram reproduces, else None"""
+        kid = self._class_of(case)
+        if kid == KF_TREE and ob.get("support_ok"):
+            return kid
+        if kid == KF_DUP and ob.get("mult_lost"):
+            return kid
+        return None
+
     def classify(self, case, what, known):
+        """C01-tree-coefficients: method TREE, some (lambda, gamma) != (1, "1"), the diagram has the Hamiltonian's operator
+        strings and only coefficients are wrong.  C01-duplicate-terms: method SGE/BIPARTITE/TREE, two padded terms are
+        identical (prefactor, symbol, operator string), and the diagram denotes the Hamiltonian with repeated terms counted fewer times (>= once), or
+        the construction dies with the IndexError of _remove_reduntant_v_hyperedges.  Anything else stays a violation."""
         if what.startswith("tie:"):
             return None
         kid = self._class_of(case)
         if kid is None or kid not in known:
             return None
-        numeric = "differs from sum_k c_k (x) A_k" in what and "failed" not in what and "shape" not in what
-        if kid == KF_TREE and numeric:
+        numeric = "TTNO differs from sum_k c_k (x) A_k" in what and "failed" not in what and "shape" not in what
+        if kid == KF_TREE and numeric and "operator strings agree, coefficients differ" in what:
             return kid
-        if kid == KF_DUP and (numeric or "raised IndexError: list index out of range" in what):
+        if kid == KF_DUP and numeric and "exactly repeated terms counted fewer times" in what:
+            return kid
+        if kid == KF_DUP and case["method"] in ("SGE", "BIPARTITE") and \
+                "raised IndexError: list index out of range [in _remove_reduntant_v_hyperedges]" in what:
             return kid
         return None
 
